@@ -18,10 +18,16 @@ CFG = dict(
          "and on out-of-range / overflowing ones, raw values incl. negative, >= 24 h, u32 wrap-around, NaT, with_hour/"
          "minute/second/nanosecond, as_cr / from_cr, Time +- d; (7) duration_trunc at four units: 13 fixed + random "
          "month-free durations, months 1 2 3 4 6 12 (spec: first instant of the period) and 5 7 8 .. 120, zero / "
-         "negative / mixed / oversized durations, instants before 1970 and outside the nanosecond range. "
+         "negative / mixed / oversized durations, instants before 1970 and outside the nanosecond range; (8) Time::with_* on times of day "
+         "and invalid receivers with the getters of the result (spec cells: new component + the three old ones), two setters in "
+         "both orders, the four setters from midnight vs from_hms_nano (spec), d * k then (d * k) / d (spec cell k) for d with and "
+         "without months and k over the i32 range, a / b on month-free operands (spec: truncated quotient) and every failure mode "
+         "(NaT, zero fixed part incl. pure months, i64::MIN / -1, fixed part beyond i64 ns, as-i32 wrap, month/ns quotient "
+         "mismatch), the scaling laws (j+k)d jd+kd (jk)d j(kd) (-1)d -d 0d 1d incl. NaT d, partial_cmp both ways, "
+         "From<Option<i64>>. "
          "non-trivial = distinct case descriptions not tagged nt=0",
-    theorem_hint="Props/C17.v: C17_add_sub_inverse, C17_add_sub_class1_*, C17_diff_add_inverse, C17_td_*, C17_month_*, C17_time_*, C17_trunc_*, C17_days_of_civil_*, C17_month_trunc_*",
-    level_text="Proof: 41 theorems (Props/C17.v, axiom-free, over Z) about the Gallina model of tea-time: "
+    theorem_hint="Props/C17.v: C17_add_sub_inverse, C17_add_sub_class1_*, C17_diff_add_inverse, C17_td_*, C17_month_*, C17_time_*, C17_trunc_*, C17_days_of_civil_*, C17_month_trunc_*, C17_time_with_*, C17_time_components_bijection, C17_timedelta_div*, C17_scaling_distributes_full, C17_td_scale_*, C17_td_order*",
+    level_text="Proof: 64 theorems (Props/C17.v, axiom-free, over Z) about the Gallina model of tea-time: "
                "(x + d) - d = x and (x - d) + d = x for month-free d outside known-finding class 1 (stated as "
                "kf_subunit u d = false -> ..., with a witness that the class fails AND a proof that every member of "
                "the class fails by exactly one unit: result = x - 1), (a - b) + b = a, TimeDelta is an abelian group "
@@ -36,8 +42,21 @@ CFG = dict(
                "every year and reflects it (order isomorphism), month lengths add up. Calendar facts enter through the "
                "CalendarLaws record (Section hypothesis), which Proofs/Calendar.v proves for the executable calendar; "
                "the order theorems are about the executable calendar directly. Nothing is partial; the unrestricted "
-               "inverse law stays a Definition because class 1 refutes it. Not proved (compared only): "
-               "TimeDelta / TimeDelta, Time::with_*.",
+               "inverse law stays a Definition because class 1 refutes it. Extension X27 (Proofs/Time3.v, 23 theorems): "
+               "Time::with_hour/minute/second/nanosecond on every time of day and valid component give a time of day that "
+               "reports the new component and the three others unchanged (closed form on the raw value; out-of-range "
+               "component or invalid receiver = None; the four setters from midnight = from_hms_nano; setters commute, the "
+               "last one wins; chrono's leap-second range 10^9..2*10^9 is accepted and spills into the next second); "
+               "(h, m, s, ns) <-> Time is a bijection between valid components and 0 <= raw < 86400e9 with the getters as "
+               "inverse; TimeDelta / TimeDelta: (k * d) / d = k for every non-NaT d with a non-zero fixed part and i32 k, "
+               "d / d = 1, value = truncated quotient of the fixed parts cast as i32, a = q*b + r with |r| < |b| and the sign "
+               "of a, the month/ns agreement rule, and every failure mode (NaT, zero fixed part even for pure months, "
+               "i64::MIN / -1, fixed part beyond i64 ns); scaling: k(a+b) = ka+kb, (j+k)d = jd+kd, (jk)d = j(kd) (whenever the "
+               "side with more operations exists the other side exists and is equal; converses refuted by witnesses), "
+               "1d = d, (-1)d = -d, 0d = zero, NaT * k = NaT for EVERY k incl. 0, an arithmetic bound under which scaling "
+               "succeeds; PartialOrd for TimeDelta is the lexicographic order on (months, ns), translation invariant and "
+               "reversed by negation. Not proved (compared only, by design): Time::parse / TimeDelta::parse (chrono's parser "
+               "resp. C18), chrono's conformance to its model.",
     level_note="Trusted: Coq kernel; the hand-written model of impl_ops.rs / time.rs / impl_time.rs / datetime.rs and of "
                "the chrono functions they delegate to (checked_add_months, checked_add_signed, Duration arithmetic "
                "and ranges, DurationRound::duration_trunc, NaiveTime), compared on every run. Known finding class 1 "
